@@ -51,6 +51,7 @@ func NewPool(ctx ...context.Context) *Pool {
 	p.lock.RLock()
 	go func() {
 		defer cancel()
+		defer verifPoint("pool.watch.beforeCancel")
 		defer p.lock.RUnlock()
 		for i := 0; i < len(p.pool); i++ {
 			ch := p.pool[i]
@@ -59,6 +60,7 @@ func NewPool(ctx ...context.Context) *Pool {
 			case <-ch:
 			case <-p.closed:
 			}
+			verifPoint("pool.watch.woke")
 			p.lock.RLock()
 		}
 	}()
@@ -69,6 +71,7 @@ func NewPool(ctx ...context.Context) *Pool {
 // Add adds a context to the pool. The context is ignored if the pool is
 // already cancelled or if all current contexts in the pool are done.
 func (p *Pool) Add(ctx context.Context) *Pool {
+	verifPoint("pool.add.enter")
 	p.lock.Lock()
 	defer p.lock.Unlock()
 	select {
@@ -82,6 +85,7 @@ func (p *Pool) Add(ctx context.Context) *Pool {
 
 // Cancel cancels the pool. Removes all contexts from the pool.
 func (p *Pool) Cancel() {
+	verifPoint("pool.cancel.enter")
 	p.lock.Lock()
 	defer p.lock.Unlock()
 	if p.pool != nil {
